@@ -13,10 +13,24 @@ Open Scope list_scope.
 (* ---- totality ---- *)
 (* Full strength ("ProtocolError or InvalidUriError only") is FALSE of the code: *)
 Theorem C08_total_refuted : forall uri_ok custom_ok,
-  unserialize1 uri_ok custom_ok event_ff_witness = Raise AssertionError
+  unserialize1 uri_ok custom_ok event_enc_key_witness = Raise AssertionError
+  /\ unserialize1 uri_ok custom_ok unsubscribed_combo_witness = Raise AssertionError
   /\ unserialize1 uri_ok custom_ok hello_self_witness = Raise TypeError.
 Proof. exact total_refuted. Qed.
 Print Assumptions C08_total_refuted.
+
+(* repaired by ea2362f8 (was the first witness): a malformed forward_for is a ProtocolError, in Unregister too *)
+Theorem C08_forward_for_repaired : forall uri_ok custom_ok,
+  unserialize1 uri_ok custom_ok event_ff_witness = Raise ProtocolError
+  /\ unserialize1 uri_ok custom_ok unregister_ff_value = Raise ProtocolError.
+Proof. exact forward_for_repaired. Qed.
+Print Assumptions C08_forward_for_repaired.
+
+(* an accepted forward_for option is a list of dicts with an int session, a str-or-None authid, a str authrole *)
+Theorem C08_forward_for_entries : forall uri_ok x,
+  okind_check uri_ok OFwd x = None -> exists l, x = VList l /\ forallb ff_entry_passes l = true.
+Proof. exact forward_for_entries. Qed.
+Print Assumptions C08_forward_for_entries.
 
 (* What does hold, for every raw structure: any other exception is an AssertionError of the class
    constructor on the extracted attributes, or the TypeError of role_cls( ** features) in HELLO / WELCOME *)
@@ -87,14 +101,14 @@ Theorem C08_strict_options : forall uri_ok specs od, check_opts uri_ok specs od 
 Proof. exact check_opts_none_in. Qed.
 Print Assumptions C08_strict_options.
 
-(* Full strength (every present option conforms to the strict reading: session ids in range, well-formed
+(* Full strength (every present option conforms to the strict reading: session ids in range, also inside
    forward_for entries) is FALSE of the code: *)
 Theorem C08_strict_refuted : forall uri_ok custom_ok,
   (exists m o x, parse uri_ok custom_ok Event event_publisher_witness = Ok m
       /\ In o (s_opts Event) /\ dget (s2l (o_key o)) (find_opts (s_slots Event) (tl event_publisher_witness)) = Some x
       /\ strict_okind_ok uri_ok (o_kind o) x = false)
-  /\ (exists m o x, parse uri_ok custom_ok Unregister unregister_ff_witness = Ok m
-      /\ In o (s_opts Unregister) /\ dget (s2l (o_key o)) (find_opts (s_slots Unregister) (tl unregister_ff_witness)) = Some x
+  /\ (exists m o x, parse uri_ok custom_ok Cancel cancel_ff_session_witness = Ok m
+      /\ In o (s_opts Cancel) /\ dget (s2l (o_key o)) (find_opts (s_slots Cancel) (tl cancel_ff_session_witness)) = Some x
       /\ strict_okind_ok uri_ok (o_kind o) x = false).
 Proof. exact strict_refuted. Qed.
 Print Assumptions C08_strict_refuted.
